@@ -91,7 +91,7 @@ def correspondence(ctx):
     else:
         trees = d1 + d2
         res.exhaustive = True
-    n_rand = ctx.n(600, 6000)
+    n_rand = ctx.n(600, 20000)
     for _ in range(n_rand):
         trees.append(ul.rand_tree(rng, rng.choice([2, 3, 3, 4, 5]), leafgen))
     entries, skipped = [], 0
